@@ -8,10 +8,10 @@ type scheduler struct {
 
 type schedImpl interface {
 	yield(tid int, what string)
-	acquire(tid int, id string)
+	acquire(tid int, id string) bool // false: the lock was refused (not taken)
 	release(tid int, id string)
 }
 
 func (s *scheduler) yield(tid int, what string) { s.impl.yield(tid, what) }
-func (s *scheduler) acquire(tid int, id string) { s.impl.acquire(tid, id) }
+func (s *scheduler) acquire(tid int, id string) bool { return s.impl.acquire(tid, id) }
 func (s *scheduler) release(tid int, id string) { s.impl.release(tid, id) }
